@@ -183,7 +183,29 @@ func (rt *stubRT) RoundTrip(req *http.Request) (*http.Response, error) {
 		return mkResp(req, 200, "healthy"), nil
 	}
 	st.hits++
-	if req.Body != nil && req.Body != http.NoBody {
+	if req.Header.Get("X-Verif-Early") != "" && req.Body != nil && req.Body != http.NoBody {
+		// like http.Transport: the request body is sent by a goroutine of the connection
+		// (writeLoop), and a backend that answers before it has the whole body makes the round
+		// trip return while that goroutine still reads: it finds the body closed some time after
+		// the exchange is over
+		body := req.Body
+		upload := func() {
+			buf := make([]byte, 16)
+			for {
+				if s := vrt.Cur(); s != nil {
+					s.Yield("upload-goes-on:" + st.name)
+				}
+				if _, err := body.Read(buf); err != nil {
+					return
+				}
+			}
+		}
+		if s := vrt.Cur(); s != nil {
+			s.Spawn("upload:"+st.name, upload)
+		} else {
+			go upload()
+		}
+	} else if req.Body != nil && req.Body != http.NoBody {
 		// like http.Transport: the request body is sent along; if reading it fails the round
 		// trip fails with that error (the backend has seen the head and part of the body)
 		if _, err := io.Copy(io.Discard, req.Body); err != nil {
@@ -553,6 +575,44 @@ func (k *kit) requestBadUpload(client string) reqResult {
 		r.Method = "POST"
 		r.Body = &failingUpload{}
 		r.ContentLength = -1
+	})
+}
+
+// serverBody is a request body as net/http's server hands it to a handler: n bytes, and a Read
+// after Close fails with http.ErrBodyReadAfterClose.
+type serverBody struct {
+	left   int
+	closed bool
+}
+
+func (b *serverBody) Read(p []byte) (int, error) {
+	if b.closed {
+		return 0, http.ErrBodyReadAfterClose
+	}
+	if b.left == 0 {
+		return 0, io.EOF
+	}
+	n := len(p)
+	if n > b.left {
+		n = b.left
+	}
+	for i := 0; i < n; i++ {
+		p[i] = 'u'
+	}
+	b.left -= n
+	return n, nil
+}
+func (b *serverBody) Close() error { b.closed = true; return nil }
+
+// requestAnsweredEarly: a POST with a 48-byte body; the backend answers without waiting for the
+// body, the transport goes on sending it (see stubRT.RoundTrip).
+func (k *kit) requestAnsweredEarly(client, mode string) reqResult {
+	return k.requestWith(client, nil, func(r *http.Request) {
+		r.Method = "POST"
+		r.Body = &serverBody{left: 48}
+		r.ContentLength = 48
+		r.Header.Set("X-Verif-Early", "1")
+		r.Header.Set("X-Verif-Mode", mode)
 	})
 }
 
